@@ -185,6 +185,9 @@ pub struct RawGenOpts {
     pub closed_polygons: bool,
     /// with `abstracts`: may some cells have an abstract and no layout at all?
     pub abs_only_cells: bool,
+    /// two purposes of one layer may share a purpose (datatype) number, as pin and label do in some
+    /// technologies; only where purposes are compared by number
+    pub shared_purpose_numbers: bool,
 }
 fn maybe_close(src: &mut Src, o: &RawGenOpts, g: RGeom) -> RGeom {
     match g {
@@ -319,7 +322,7 @@ pub fn gen_geom(src: &mut Src, slot: usize) -> (RGeom, &'static str) {
 }
 const NETS: &[&str] = &["vdd", "VSS", "Net1", "out<3>", "clk_A", "a", "Q", "größe"];
 
-pub fn gen_layers(src: &mut Src) -> Vec<RLayer> {
+pub fn gen_layers(src: &mut Src, share_numbers: bool) -> Vec<RLayer> {
     let n = src.usize_in(1, 5);
     let mut used: Vec<i16> = vec![];
     let mut layers = vec![];
@@ -338,8 +341,12 @@ pub fn gen_layers(src: &mut Src) -> Vec<RLayer> {
         let mut pnums: Vec<i16> = vec![];
         let mut add = |src: &mut Src, p: RPurpose, purposes: &mut Vec<(i16, RPurpose)>| {
             let mut k = src.below(60) as i16;
-            while pnums.contains(&k) {
-                k += 1;
+            if share_numbers && !pnums.is_empty() && !matches!(p, RPurpose::Other | RPurpose::Named(_)) && src.prob(1, 5) {
+                k = pnums[src.index(pnums.len())];
+            } else {
+                while pnums.contains(&k) {
+                    k += 1;
+                }
             }
             pnums.push(k);
             purposes.push((k, p));
@@ -365,7 +372,7 @@ pub fn gen_layers(src: &mut Src) -> Vec<RLayer> {
     layers
 }
 pub fn gen_rawlib(src: &mut Src, o: &RawGenOpts) -> RLib {
-    let layers = gen_layers(src);
+    let layers = gen_layers(src, o.shared_purpose_numbers);
     let nc = src.usize_in(1, o.max_cells);
     let mut cells: Vec<RCell> = vec![];
     for ci in 0..nc {
